@@ -26,6 +26,21 @@ pub fn is_sink_call_reachable_from_source_call(
     let mut worklist = vec![source_node];
 
     while let Some(node) = worklist.pop() {
+        if let Node::BlkEnd(blk, _) = graph[node] {
+            // Calls without a return target have no outgoing edge in the control flow graph.
+            for jmp in blk.term.jmps.iter() {
+                if let Jmp::Call {
+                    target,
+                    return_: None,
+                } = &jmp.term
+                {
+                    if target == sink_symbol {
+                        // We found a call to the sink
+                        return Some(jmp.tid.clone());
+                    }
+                }
+            }
+        }
         for edge in graph.edges(node) {
             if let Edge::ExternCallStub(jmp) = edge.weight() {
                 if let Jmp::Call { target, .. } = &jmp.term {
